@@ -441,3 +441,27 @@ Definition flat (h : list op) : list aop :=
 (* the thread a block belongs to *)
 Definition athr (a : aop) : tid :=
   match a with AOp o => thr o | ASaveOp t => t | AEnterRest t _ _ => t end.
+
+(* reading a sequence of blocks as a history of whole operations: the first half of a context entry
+   is held back (P: threads between the two halves of an entry) until its second half arrives *)
+Fixpoint normH (P : tid -> bool) (H : list aop) : option (list op * (tid -> bool)) :=
+  match H with
+  | [] => Some ([], P)
+  | AOp o :: H' => if P (thr o) then None else
+                   match normH P H' with Some (h, P') => Some (o :: h, P') | None => None end
+  | ASaveOp t :: H' => if P t then None else normH (upd P t true) H'
+  | AEnterRest t x l :: H' => if P t then
+                   match normH (upd P t false) H' with Some (h, P') => Some (Enter t x l :: h, P') | None => None end
+                   else None
+  end.
+
+(* every first half of an entry is executed by a thread that holds a selection of its own *)
+Fixpoint saves_own (R : rules) (c : cfg) (b : bst) (H : list aop) : Prop :=
+  match H with
+  | [] => True
+  | a :: H' => match a with ASaveOp t => p_tls (b_priv b t) <> None | _ => True end /\ saves_own R c (astep R c b a) H'
+  end.
+
+(* threads between the two effect points of a context entry *)
+Definition pending (s : ost) (t : tid) : bool := has_lp (m_pend (o_m s) t) && snd (o_cur s t).
+
